@@ -9,7 +9,7 @@ import (
 func init() { register("C09", propC09) }
 
 func propC09(c *Check) {
-	c.Explain = "Decides that no path reports a snapshot as finalized without the full certificate check on the historical key set: (1) verifyFinalization reaches cacheVerifyCosi only past the version, nil-signature, zero-mask and epoch gates; its verdict is always cacheVerifyCosi's; each call receives s.Hash, s.Signature, the ids/keys of ConsensusKeys(s.RoundNumber, T) and the threshold ConsensusThreshold(T, true) for the *same* T (timestamp, resp. legacyTimestamp); the legacy retry is reachable only when the first verdict failed and the predictive-removal rule is not active; (2) cacheVerifyCosi returns constant true only past sig.FullVerify(publics, threshold, snap) == nil; its cache key derives from signature bytes, snapshot hash, every public key, threshold and mask; the two cache writes use that same key, one per outcome branch; the hit path reports true only under len(signers)==len(sig.Keys()) && len(signers)>0 on the decoded cached value; (3) FullVerify gates threshold<=0, ThresholdVerify(threshold), the aggregate-key error and A.Verify(message, c.Signature) with A aggregated from exactly the masked keys (c.Keys()); ThresholdVerify is len(c.Keys()) >= threshold; aggregatePublicKey consumes collectAggregateSigners' range/order/nil gates; (4) ConsensusKeys returns, position by position, the id and public spend key of consensusNodes(round, timestamp)."
+	c.Explain = "Decides that no path reports a snapshot as finalized without the full certificate check on the historical key set: (1) verifyFinalization reaches cacheVerifyCosi only past the version, nil-signature, zero-mask and epoch gates; its verdict is always cacheVerifyCosi's; each call receives s.Hash, s.Signature, the ids/keys of ConsensusKeys(s.RoundNumber, T) and the threshold ConsensusThreshold(T, true) for the *same* T (timestamp, resp. legacyTimestamp); the legacy retry is reachable only when the first verdict failed and the predictive-removal rule is not active; (2) cacheVerifyCosi returns constant true only past sig.FullVerify(publics, threshold, snap) == nil; its cache key derives from signature bytes, snapshot hash, every public key, threshold and mask; the two cache writes use that same key, one per outcome branch; the hit path reports true only under len(signers)==len(sig.Keys()) && len(signers)>0 on the decoded cached value; (3) FullVerify gates threshold<=0, ThresholdVerify(threshold), the aggregate-key error and A.Verify(message, c.Signature) with A aggregated from exactly the masked keys (c.Keys()); ThresholdVerify is len(c.Keys()) >= threshold; aggregatePublicKey consumes collectAggregateSigners' range/order/nil gates; (4) ConsensusKeys returns, position by position, the id and public spend key of consensusNodes(round, timestamp). The legacy retry is additionally gated by the operation-window hour tests and by the fork test on the snapshot's own timestamp; CosiSignature.Keys lists an index exactly when its mask bit is set."
 	c.NotCov = "membership histories behind NodesListWithoutState (see C11), forgery resistance, ristretto cache behaviour (eviction/collisions)."
 	c.Floor(28)
 	w := c.W
